@@ -203,6 +203,11 @@ pub(super) trait DialectHandler: Any + Debug {
         IntervalQuotingStyle::NoQuotes
     }
 
+    /// Whether the dialect has interval literals (`INTERVAL 1 HOUR`) at all.
+    fn supports_interval_literals(&self) -> bool {
+        true
+    }
+
     /// Support for GROUP BY *
     fn stars_in_group(&self) -> bool {
         true
@@ -432,6 +437,12 @@ impl DialectHandler for SQLiteDialect {
     }
 
     fn stars_in_group(&self) -> bool {
+        false
+    }
+
+    // SQLite has no INTERVAL syntax; date arithmetic goes through its date functions.
+    // https://www.sqlite.org/lang_datefunc.html
+    fn supports_interval_literals(&self) -> bool {
         false
     }
 }
